@@ -437,6 +437,10 @@ func (a *Analyzer) Feed(r *ev.Rec) {
 			sig = "no-progress:wiped-follower-refused-as-faulty"
 		}
 		a.find("C17", "no-progress-after-faults-stopped", sig, r.Q, "no convergence within %d ticks after faults stopped: %s", r.Cnt, r.Note)
+		if a.rep.Stats["compactions"] > 0 && sig != "no-progress:wiped-follower-refused-as-faulty" {
+			// C09: compaction must not leave a node that cannot be brought up to date
+			a.find("C09", "not-brought-up-to-date-after-compaction", "after-compaction:"+sig, r.Q, "logs were compacted in this run and afterwards: %s", r.Note)
+		}
 	case "harness-error":
 		a.rep.Inconclusive = append(a.rep.Inconclusive, "harness error: "+r.Err)
 	case "wire-id":
